@@ -86,5 +86,4 @@ PROP = {
             "version:15-22", "version:23-28", "version:current", "version:not_historical",
         ],
     },
-    "claimed": False,
 }
